@@ -173,6 +173,33 @@ def factor_degree(t, pname, depth=0):
     return 1 if any(x.op == 'param' and x.args[0] == pname for x in walk_terms(t, into_mu=False)) else 0
 
 
+def check_aligner_guard(run, A):
+    """R-LOOP: the optional inline aligner is applied exactly when one is given: the call of apply_inline_permutation_alignment(aligner=<p>) stands under
+    `<p> is not None` (flipped, a trainer without an aligner dereferences None in every E-step and one with an aligner silently skips it)."""
+    from ..walk import none_test
+    n = 0
+    for fn in A.prog.all_funcs():
+        if not fn.mod.name.startswith(D) or fn.cls is None or not fn.cls.name.endswith('Trainer'):
+            continue
+        g = A.graphs.get(fn)
+        for e in g.events:
+            if e.kind != 'call' or call_parts(e.term)[0] != MMU + 'apply_inline_permutation_alignment':
+                continue
+            al = call_arg(e.term, None, 'aligner')
+            if al is None:
+                continue
+            al0 = strip_views(al)
+            n += 1
+            given = False
+            for c, pol in e.guards:
+                x, is_none = none_test(c, pol)
+                if x is not None and (x is al0 or (x.op == 'param' and al0.op == 'param' and x.args[0] == al0.args[0])) and is_none is False:
+                    given = True
+            run.check(given, 'R-LOOP', f'{fn.qual.split("::")[1]}: the inline aligner is applied exactly when one is given', fn.loc(e.term.node), '',
+                      'the call of apply_inline_permutation_alignment is not guarded by `<aligner> is not None`', construct=f'R-LOOP::{fn.qual}::aligner-guard')
+    run.floor('C08 guarded inline aligner calls', n, 3)
+
+
 def check_default_saliency(run, A):
     """R-DEP: `saliency=None` means "every observation counts once".  Wherever a trainer replaces the missing saliency, the replacement is an array
     of ones and a given saliency is kept as it is (a zeros default / a flipped test silently removes all - or the caller's - observation weights)."""
@@ -546,6 +573,7 @@ def check(run):
     check_alternation(run, A)
     check_plumbing(run, A)
     check_default_saliency(run, A)
+    check_aligner_guard(run, A)
     check_options(run, A)
     # the aligner between E- and M-step reorders posterior and quadratic form with ONE mapping and by the same gather (shared rule instance with C14):
     # otherwise the cACG M-step of class k pairs the posterior of class k with the quadratic form of another class
